@@ -329,6 +329,11 @@ def main():
     drift = 0
     replayed = 0
     models = [m for m in P.get("models", []) if tier in m.get("tiers", ["quick", "thorough"])]
+    # development aid (never set by registered commands): restrict a run to the named drivers, no models
+    only = [x for x in os.environ.get("VERIF_ONLY_DRIVERS", "").split(",") if x]
+    if only:
+        models = []
+        P = dict(P, drivers=[d for d in P.get("drivers", []) if d["name"] in only], min_nontrivial=0)
     with ThreadPoolExecutor(max_workers=8) as ex:
         futs = [ex.submit(model_stage, pid, m, tier, seed) for m in models]
         results = [f.result() for f in futs]
